@@ -36,6 +36,7 @@ ACCEPTED_ALARMS = {
     'C18-r9-cycle-capacity-reserved-from-largest-triple-entry': 'C18.R1/R4, C01.R7: the boundary cycle grows its successor array lazily inside init/try_extend (Vec::extend by a run-time range) instead of one grow() per plane — the cycle model has a fixed successor array per step',
     'C09-r10-with-data-routes-index-the-data-by-cell-idx': 'C09.R4/C13.R5/C14.R2: the *_with_data routes pick the datum by the cell label (extra_data[cell.idx]) instead of zipping slots with data, parallel arm written out, sequential arm through the cells_iter accessor — equal only through the invariant label == slot, which these rules do not chain',
     'C15-r10-discard-faces-keeps-cleared-buffers': 'C15.R2/R7: discard_faces leaves Some(empty) buffers that with_faces takes and appends to — equivalent only because nothing reads the two fields in the WithoutFaces state; the rules ask for None / a fresh list',
+    'C13-r11-symmetric-skip-decision-cached-per-plane': 'C03.R2/C07.R3/C13.R4/C14.R7: the skip decision of the symmetric route memoised in a loop-carried variable (keyed by the plane index: correct; keyed by the neighbour index: the seeded defect) — a decision depending on a value carried between iterations is outside the decision tables',
 }
 
 
